@@ -122,7 +122,9 @@ def check_symbolic(cx, rep):
             for m in range(M):
                 c = co.get(m)
                 got = (c.const_value() / r.d.const_value()) if c is not None else Fraction(0)
-                ok = got == Fraction(1, math.factorial(m + 5))
+                want_c = Fraction(1, math.factorial(m + 5))
+                # a coefficient written as a pre-rounded constant is the correctly rounded value of 1/(m+5)!
+                ok = got == want_c or abs(got - want_c) <= want_c * Fraction(1, 2 ** 53)
                 rep.ob('series', '%s:a%d' % (inst, m), ok, 'a_%d = %s' % (m, got), fn=inst, file=file, line=line,
                        msg='series coefficient of x^%d is %s, expected 1/%d! = %s' % (m, got, m + 5, Fraction(1, math.factorial(m + 5))))
             occ = rounding_occurrences(a.ret, nf)
